@@ -54,18 +54,26 @@ pub struct Case {
     pub executor: FsmExecutor,
 }
 
+static ECMA_DEFAULT_MODE: std::sync::atomic::AtomicBool = std::sync::atomic::AtomicBool::new(false);
+/// while set, `Case::new` leaves the ECMAScript data model in the platform's default (non-strict) mode
+pub fn set_ecma_default_mode(on: bool) {
+    ECMA_DEFAULT_MODE.store(on, std::sync::atomic::Ordering::SeqCst);
+}
+
 impl Case {
     pub fn new() -> Case {
         let epoch = rec::begin_case();
         let executor = FsmExecutor::new_without_io_processor();
         // the ECMAScript data model is run in its strict mode, like the repository's own W3C test
         // configuration (test/w3c/test_config.json: "datamodel:ecma:strict")
-        executor
-            .state
-            .lock()
-            .unwrap()
-            .datamodel_options
-            .insert("ecma:strict".to_string(), "".to_string());
+        if !ECMA_DEFAULT_MODE.load(std::sync::atomic::Ordering::SeqCst) {
+            executor
+                .state
+                .lock()
+                .unwrap()
+                .datamodel_options
+                .insert("ecma:strict".to_string(), "".to_string());
+        }
         Case {
             epoch,
             actions: rec::make_actions(epoch),
@@ -95,6 +103,15 @@ impl Case {
             info,
             idles_seen: 0,
         }
+    }
+}
+
+impl Case {
+    /// like `new`, but the ECMAScript data model runs in the platform's default (non-strict) mode
+    pub fn new_default_mode() -> Case {
+        let c = Case::new();
+        c.executor.state.lock().unwrap().datamodel_options.remove("ecma:strict");
+        c
     }
 }
 
